@@ -40,7 +40,8 @@ class Parser:
     """Strict RFC 8259 grammar.  max_depth: values enclosed by more than max_depth-1 containers are an
     error (None = unlimited).  Iterative-free recursive descent is fine for the depths used here."""
 
-    def __init__(self, s, max_depth=None, allow_ctrl=False):
+    def __init__(self, s, max_depth=None, allow_ctrl=False, key_hook=None):
+        self.key_hook = key_hook  # applied to every member name before insertion (used to model the listed NUL-in-name finding)
         self.s, self.n, self.i, self.max_depth = s, len(s), 0, max_depth
         self.allow_ctrl = allow_ctrl  # json-c extension used by C16's oracle: raw control bytes inside strings
 
@@ -202,6 +203,8 @@ class Parser:
             if self.i >= self.n or self.s[self.i] != 0x22:
                 raise JSONError(self.i, "name expected")
             k = self.string()
+            if self.key_hook:
+                k = self.key_hook(k)
             self.ws()
             if self.i >= self.n or self.s[self.i] != 0x3A:
                 raise JSONError(self.i, "':' expected")
@@ -220,8 +223,8 @@ class Parser:
                 raise JSONError(self.i - 1, "',' expected")
 
 
-def parse(s, max_depth=None, allow_ctrl=False):
-    return Parser(s, max_depth, allow_ctrl).parse()
+def parse(s, max_depth=None, allow_ctrl=False, key_hook=None):
+    return Parser(s, max_depth, allow_ctrl, key_hook).parse()
 
 
 def dbits(f):
